@@ -31,7 +31,7 @@ def compare(p, run, pred):
     uid_of = {"t%d" % i: u[0] for i, u in enumerate(us)}
     kind_of = {u[0]: u[2] for u in us}
     deps_of = {u[0]: u[3] for u in us if u[2] == "end"}
-    m = re.match(r"ERR=(.*) ; RES=(.*) ; CALLS=(.*) ; BLOCKED=(.*) ; OP=(.*) ; UNIQ=(.*) ; JOBS=(.*)$", pred)
+    m = re.match(r"ERR=(.*) ; RES=(.*) ; CALLS=(.*) ; BLOCKED=(.*) ; OP=(.*) ; UNIQ=(.*) ; PROV=(.*) ; JOBS=(.*)$", pred)
     perr, pcalls, pblocked = m.group(1), m.group(3), m.group(4)
     if m.group(5) != "agree":
         bad("MODEL", "FlowOpModel and FlowSemModel disagree on the embedding of a Parallel: %s" % m.group(5))
@@ -208,6 +208,7 @@ def observe(seed, tier):
         for pi, p in enumerate(pars):
             if pi % 3 == 0:
                 plan.append({"flow": p.name(), "label": "precancel", "conc": [1, 2, 0][pi % 3], "scenario": {}, "sleeps": {}, "precancel": True})
+        json.dump(plan, open(os.path.join(mod, "plan.json"), "w"))
         rc, out, err = common.run([exe], input=json.dumps(plan), check=False, timeout=3000)
         runs = [json.loads(l) for l in out.split("\n") if l.strip()]
         if rc != 0 or len(runs) != len(plan):
@@ -240,6 +241,19 @@ def observe(seed, tier):
     with open(cpath, "w") as fh:
         json.dump(S, fh)
     return S
+
+
+def apply_race(chk, limit):
+    s = observe(chk.seed, chk.tier)
+    if not s["ok"]:
+        return
+    key = "par-%s-%s-%d-%s" % (common.repo_tree_hash(), _hash_sources(), chk.seed, chk.tier)
+    r = gen_common.race_run(s["module"], key, limit)
+    chk.cov["evaluations"] += r["executions"]
+    chk.cov.setdefault("correspondence", {})["generated_parallels_race_detector"] = {
+        "kind": "runner of the generated Parallel programs built with -race", "executions": r["executions"], "races": r["races"]}
+    if r["races"]:
+        chk.violate("the Go race detector reports a data race in generated Parallel code during %s" % r["during"], {"report": r["report"], "during": r["during"], "module": s["module"]})
 
 
 def apply(chk, pid):
